@@ -41,39 +41,46 @@ def writer_keys(prog: Program, cls: ClassInfo, method: str = "as_dict", _after: 
     fn = ms[0]
     cfg = cfg_of(fn)
     out: dict[str, WKey] = {}
-    result_var: str | None = None
     writes: list[tuple[object, str, ast.expr]] = []  # (cfg node, key, value)
     full_param = "full" if "full" in fn.params else None
+    # the result mapping: the local name(s) the function returns (or a dict display returned directly)
+    result_names = {s.value.id for s in walk_no_nested(fn.node) if isinstance(s, ast.Return) and isinstance(s.value, ast.Name)}
+    result_var: str | None = next(iter(sorted(result_names)), None)
+
+    def dict_items(d: ast.Dict):
+        for k, v in zip(d.keys, d.values):
+            if _const_key(k):
+                yield _const_key(k), v
+
     for n in cfg.live_nodes():
         s = n.stmt
         if n.kind == "return" and isinstance(s, ast.Return) and isinstance(s.value, ast.Dict):
-            for k, v in zip(s.value.keys, s.value.values):
-                if _const_key(k):
-                    writes.append((n, _const_key(k), v))
-            result_var = "<return>"
+            for k, v in dict_items(s.value):
+                writes.append((n, k, v))
+            result_var = result_var or "<return>"
         if n.kind != "stmt" or s is None:
             continue
         if isinstance(s, (ast.Assign, ast.AnnAssign)) and s.value is not None:
             tgt = s.targets[0] if isinstance(s, ast.Assign) else s.target
-            if isinstance(tgt, ast.Name) and isinstance(s.value, ast.Dict):
-                result_var = result_var or tgt.id
-                for k, v in zip(s.value.keys, s.value.values):
-                    if _const_key(k):
-                        writes.append((n, _const_key(k), v))
-            elif isinstance(tgt, ast.Name) and isinstance(s.value, ast.Call) and isinstance(s.value.func, ast.Attribute) and s.value.func.attr == method \
-                    and isinstance(s.value.func.value, ast.Call) and dotted(s.value.func.value.func) == "super":
-                result_var = result_var or tgt.id
+            if isinstance(tgt, ast.Name) and tgt.id in result_names and isinstance(s.value, ast.Dict):
+                for k, v in dict_items(s.value):
+                    writes.append((n, k, v))
+            elif isinstance(tgt, ast.Name) and tgt.id in result_names and isinstance(s.value, ast.Call) and isinstance(s.value.func, ast.Attribute) \
+                    and s.value.func.attr == method and isinstance(s.value.func.value, ast.Call) and dotted(s.value.func.value.func) == "super":
                 inherited = writer_keys(prog, cls, method, _after=fn.cls, full=full)
-                # does the super call forward `full`?  (**kwargs carries it)
                 for k, wk in inherited.items():
                     out[k] = wk
-            elif isinstance(tgt, ast.Subscript) and isinstance(tgt.value, ast.Name) and _const_key(tgt.slice) and (result_var is None or tgt.value.id == result_var):
+            elif isinstance(tgt, ast.Subscript) and isinstance(tgt.value, ast.Name) and tgt.value.id in result_names and _const_key(tgt.slice):
                 writes.append((n, _const_key(tgt.slice), s.value))
         elif isinstance(s, ast.Expr) and isinstance(s.value, ast.Call) and isinstance(s.value.func, ast.Attribute) and s.value.func.attr == "update" \
-                and isinstance(s.value.func.value, ast.Name) and s.value.args and isinstance(s.value.args[0], ast.Dict):
-            for k, v in zip(s.value.args[0].keys, s.value.args[0].values):
-                if _const_key(k):
-                    writes.append((n, _const_key(k), v))
+                and isinstance(s.value.func.value, ast.Name) and s.value.func.value.id in result_names:
+            if s.value.args and isinstance(s.value.args[0], ast.Dict):
+                for k, v in dict_items(s.value.args[0]):
+                    writes.append((n, k, v))
+            for kw in s.value.keywords:
+                if kw.arg:
+                    writes.append((n, kw.arg, kw.value))
+    writes = [(n, k, ev) for n, k, v in writes for ev in _expand_value(prog, fn, v)]
     if result_var is None:
         raise AnalysisError(f"{fn.qualname}: result mapping not recognised")
     by_key: dict[str, list[tuple[object, ast.expr]]] = {}
@@ -100,6 +107,27 @@ def writer_keys(prog: Program, cls: ClassInfo, method: str = "as_dict", _after: 
                     conds.append(text if truth else f"not ({text})")
         out[k] = WKey(k, always, full_only, sorted(set(conds)), [v for _n, v in lst], fn.qualname, [n.stmt for n in nodes])
     return out
+
+
+def _expand_value(prog: Program, fn: FunctionInfo, v: ast.expr, depth: int = 0) -> list[ast.expr]:
+    """The expressions a written value can come from: a local bound by plain assignments is replaced by what it is bound to, a call of an in-repo
+    function (a helper the value was moved into) by what that function returns."""
+    if depth > 3:
+        return [v]
+    if isinstance(v, ast.Name) and v.id not in fn.params:
+        srcs = [s_.value for s_ in walk_no_nested(fn.node) if isinstance(s_, (ast.Assign, ast.AnnAssign)) and s_.value is not None and any(
+            isinstance(t, ast.Name) and t.id == v.id for t in (s_.targets if isinstance(s_, ast.Assign) else [s_.target]))]
+        other = [x for x in walk_no_nested(fn.node) if isinstance(x, ast.Name) and x.id == v.id and isinstance(x.ctx, ast.Store)]
+        if srcs and len(other) == len(srcs):
+            return [e for s_ in srcs for e in _expand_value(prog, fn, s_, depth + 1)]
+        return [v]
+    if isinstance(v, ast.Call) and dotted(v.func):
+        callee = prog.functions.get(prog.resolve(fn.module, dotted(v.func)) or "")
+        if callee is not None and callee.cls is None:
+            rets = [r.value for r in walk_no_nested(callee.node) if isinstance(r, ast.Return) and r.value is not None]
+            if rets:
+                return [e for r in rets for e in _expand_value(prog, callee, r, depth + 1)]
+    return [v]
 
 
 @dataclass
